@@ -16,4 +16,10 @@ theorem G_on_curve_bls12_381 : containsXY bls12_381 bls12_381.gx bls12_381.gy = 
 theorem order_G_bls12_381 : (bls12_381.n : Int) • toPoint bls12_381 (basis bls12_381) = 0 :=
   order_of_eval bls12_381 G_on_curve_bls12_381 (by decide +kernel)
 
+/-- BLS12-381 G1 has a cofactor: `(0, 2)` is a point of the curve that the order `r` does not annihilate -/
+theorem cofactor_point_on_curve_bls12_381 : containsXY bls12_381 0 2 = true := by decide +kernel
+
+theorem order_not_all_points_bls12_381 : (bls12_381.n : Int) • toPoint bls12_381 (some (0, 2)) ≠ 0 :=
+  smul_ne_zero_of_eval bls12_381 (some (0, 2)) cofactor_point_on_curve_bls12_381 bls12_381.n (by decide +kernel)
+
 end Pycoin.Gen.Curves
